@@ -46,6 +46,7 @@ partial def handle (op : String) (arg : Sexp) : String :=
     | _, _, _ => "bad-op"
   | "equiv-trycast", a => handle "equiv" a
   | "equiv-inlist", a => handle "equiv" a
+  | "equiv-case-fallible", a => handle "equiv" a
   | "sqlfilter-commuted-utf8view", a => handle "sqlfilter" a
   | "sqlfilter", .list [e, .list rows, impl] =>
     -- `SELECT id FROM t WHERE e`: ids (= row positions) of the rows on which `e` is TRUE
